@@ -298,6 +298,1041 @@ def tuple_augmented(n):
     b = a
     b += (n,)
     return len(a)
+
+import dataclasses
+import math
+from dataclasses import dataclass, field
+
+
+class Base:
+    kind = "base"
+
+    def __init__(self, v):
+        self.v = v
+
+    def describe(self):
+        return self.kind + ":" + self.name()
+
+    def name(self):
+        return "B"
+
+
+class Derived(Base):
+    kind = "derived"
+
+    def name(self):
+        return "D" + super().name()
+
+
+class MyErr(Exception):
+    pass
+
+
+class SubErr(MyErr):
+    pass
+
+
+@dataclass(frozen=True)
+class Point:
+    x: int
+    y: int = 0
+
+
+@dataclass
+class Bag:
+    items: list = field(default_factory=list)
+    n: int = 0
+
+
+class Ctx:
+    def __init__(self, swallow):
+        self.swallow = swallow
+        self.log = 0
+
+    def __enter__(self):
+        self.log += 1
+        return self
+
+    def __exit__(self, et, ev, tb):
+        self.log += 10
+        return self.swallow
+
+
+def try_finally_return(x):
+    try:
+        return x
+    finally:
+        if x > 5:
+            return -1
+
+
+def try_else(x):
+    try:
+        if x:
+            raise ValueError("v")
+    except ValueError:
+        return "except"
+    else:
+        return "else"
+
+
+def except_order(flag):
+    try:
+        if flag:
+            raise SubErr("s")
+        raise MyErr("m")
+    except SubErr:
+        return "sub"
+    except MyErr:
+        return "base"
+
+
+def except_tuple(k):
+    try:
+        if k == 0:
+            raise KeyError("k")
+        if k == 1:
+            raise IndexError("i")
+        raise TypeError("t")
+    except (KeyError, IndexError):
+        return "lookup"
+
+
+def except_lookup_parent(k):
+    try:
+        if k == 0:
+            raise KeyError("k")
+        raise ValueError("v")
+    except LookupError:
+        return "lookup"
+
+
+def reraise_bare(x):
+    try:
+        try:
+            raise ValueError("inner")
+        except ValueError:
+            if x:
+                raise
+            return "handled"
+    except ValueError:
+        return "outer"
+
+
+def exception_in_except(x):
+    try:
+        try:
+            raise ValueError("a")
+        except ValueError:
+            raise KeyError("b")
+    except KeyError:
+        return "key"
+
+
+def exc_var_scope(x):
+    e = "before"
+    try:
+        raise ValueError("a")
+    except ValueError as e:
+        pass
+    try:
+        return e
+    except UnboundLocalError:
+        return "unbound"
+
+
+def finally_runs_on_raise(x):
+    log = 0
+    try:
+        try:
+            raise ValueError("a")
+        finally:
+            log = 5
+    except ValueError:
+        return log
+
+
+def str_keyerror(k):
+    try:
+        raise KeyError(k)
+    except KeyError as e:
+        return str(e)
+
+
+def str_valueerror(k):
+    try:
+        raise ValueError(k)
+    except ValueError as e:
+        return str(e)
+
+
+def exc_args_two(a, b):
+    try:
+        raise ValueError(a, b)
+    except ValueError as e:
+        return len(e.args)
+
+
+def dict_missing(k):
+    d = {"a": 1}
+    return d[k]
+
+
+def dict_get_none(k):
+    d = {"a": 1}
+    return d.get(k)
+
+
+def dict_in(k):
+    return k in {"a": 1, "b": 2}
+
+
+def dict_pop_default(k):
+    d = {"a": 1}
+    return (d.pop(k, 7), len(d))
+
+
+def dict_order(k):
+    d = {"b": 1, "a": 2}
+    d[k] = 3
+    return tuple(d)
+
+
+def dict_update_overwrite(k):
+    d = {"a": 1}
+    d.update({k: 5})
+    return (len(d), d["a"])
+
+
+def dict_eq_order(x):
+    return {"a": 1, "b": 2} == {"b": 2, "a": 1}
+
+
+def list_index_error(i):
+    xs = [1, 2, 3]
+    return xs[i]
+
+
+def list_slice(i):
+    xs = [1, 2, 3, 4]
+    return tuple(xs[i:])
+
+
+def list_in(x):
+    return x in [1, 2, 3]
+
+
+def list_concat_len(n):
+    return len([1, 2] + [n])
+
+
+def list_pop_empty(n):
+    xs = []
+    return xs.pop()
+
+
+def list_eq(a):
+    return [1, a] == [1, 2]
+
+
+def list_alias_append(n):
+    a = [1]
+    b = a
+    b.append(n)
+    return len(a)
+
+
+def list_copy_append(n):
+    a = [1]
+    b = list(a)
+    b.append(n)
+    return len(a)
+
+
+def true_div(a, b):
+    return a / b
+
+
+def int_trunc(x):
+    return int(x)
+
+
+def neg_mod(a, b):
+    return a % b
+
+
+def power(a, b):
+    return a ** b
+
+
+def min_max(a, b):
+    return (min(a, b), max(a, b))
+
+
+def round_builtin(x):
+    return round(x)
+
+
+def math_ceil(x):
+    return math.ceil(x)
+
+
+def int_float_eq(a, b):
+    return a == b
+
+
+def bool_sum(a, b):
+    return a + b
+
+
+def zero_div(a):
+    return 1 // a
+
+
+def str_of(x):
+    return str(x)
+
+
+def str_len(s):
+    return len(s)
+
+
+def str_concat_none(s):
+    return "a" + s
+
+
+def str_compare(a, b):
+    return a < b
+
+
+def str_index(s, i):
+    return s[i]
+
+
+def str_slice(s):
+    return s[1:3]
+
+
+def str_format_percent(n):
+    return "%d items" % n
+
+
+def str_in_tuple(s):
+    return s in ("a", "b")
+
+
+def short_circuit(x):
+    log = []
+    def t(v):
+        log.append(v)
+        return v
+    r = t(x) and t(0) or t(7)
+    return (r, len(log))
+
+
+def ternary(x):
+    return "yes" if x else "no"
+
+
+def chained_once(x):
+    log = []
+    def mid():
+        log.append(1)
+        return x
+    r = 0 < mid() < 10
+    return (r, len(log))
+
+
+def any_all_empty(x):
+    return (any([]), all([]))
+
+
+def walrus(x):
+    if (y := x + 1) > 2:
+        return y
+    return -y
+
+
+def unpack_mismatch(n):
+    a, b = (1, 2, 3)[:n]
+    return a + b
+
+
+def star_unpack(n):
+    a, *rest = (1, 2, 3)
+    return (a, len(rest))
+
+
+def swap(a, b):
+    a, b = b, a
+    return (a, b)
+
+
+def kwonly(a, *, b=2):
+    return a + b
+
+
+def call_kwonly_wrong(x):
+    return kwonly(1, x)
+
+
+def varargs(*xs, **kw):
+    return (len(xs), len(kw))
+
+
+def call_varargs(x):
+    return varargs(1, x, k=3)
+
+
+def method_resolution(x):
+    return Derived(x).describe()
+
+
+def base_resolution(x):
+    return Base(x).describe()
+
+
+def isinstance_inherit(x):
+    return (isinstance(Derived(x), Base), isinstance(Base(x), Derived))
+
+
+def instance_shadows_class(x):
+    d = Derived(x)
+    d.kind = "own"
+    return (d.kind, Derived.kind, Derived(x).kind)
+
+
+def frozen_set(x):
+    p = Point(x)
+    p.x = 5
+    return p.x
+
+
+def dataclass_eq(x):
+    return (Point(x, 1) == Point(x, 1), Point(x, 1) == Point(x, 2), Point(x) == (x, 0))
+
+
+def dataclass_default_factory(x):
+    a, b = Bag(), Bag()
+    a.items.append(x)
+    return (len(a.items), len(b.items))
+
+
+def dataclass_replace(x):
+    p = dataclasses.replace(Point(1, 2), y=x)
+    return (p.x, p.y)
+
+
+def with_swallow(flag):
+    c = Ctx(flag)
+    try:
+        with c:
+            raise ValueError("in")
+    except ValueError:
+        return ("raised", c.log)
+    return ("swallowed", c.log)
+
+
+def none_lt(x):
+    return None < x
+
+
+def or_default_zero(x):
+    return x or 10
+
+
+def is_not_none_zero(x):
+    return x if x is not None else 10
+
+
+def for_else(n):
+    for i in range(n):
+        if i == 1:
+            break
+    else:
+        return "else"
+    return "break"
+
+
+def while_else(n):
+    i = 0
+    while i < n:
+        i += 1
+    else:
+        return ("else", i)
+
+
+def break_in_try_finally(n):
+    log = 0
+    for i in range(n):
+        try:
+            if i == 1:
+                break
+        finally:
+            log += 1
+    return log
+
+
+def continue_loop(n):
+    t = 0
+    for i in range(n):
+        if i % 2:
+            continue
+        t += i
+    return t
+
+
+def range_step(n):
+    return tuple(range(n, 0, -2))
+
+
+def enumerate_start(n):
+    return tuple((i, v) for i, v in enumerate(["a", "b"], start=n))
+
+
+def zip_unequal(n):
+    return len(list(zip([1, 2, 3], ["a", "b"])))
+
+
+def reversed_list(n):
+    return tuple(reversed([1, 2, n]))
+
+
+def sum_list(n):
+    return sum([1, 2, n])
+
+
+def max_empty(n):
+    return max([])
+
+
+def max_default(n):
+    return max([], default=n)
+
+
+def sorted_key(n):
+    return tuple(sorted([3, 1, n], key=lambda v: -v))
+
+
+def sort_returns_none(n):
+    xs = [3, 1, n]
+    r = xs.sort()
+    return (r, xs[0])
+
+
+def int_parse(s):
+    return int(s)
+
+
+def nan_ne(x):
+    n = float("nan")
+    return n != n
+
+
+def attr_missing(x):
+    return Base(x).nope
+
+
+def getattr_default(x):
+    return getattr(Base(x), "nope", 9)
+
+
+def hasattr_check(x):
+    return (hasattr(Base(x), "v"), hasattr(Base(x), "w"))
+
+
+def none_attr(x):
+    y = None
+    return y.value
+
+
+def call_none(x):
+    f = None
+    return f()
+
+
+def nested_func_default(x):
+    def inner(a, b=x):
+        return a + b
+    x = 100
+    return inner(1)
+
+
+def tuple_compare(a, b):
+    return (a, 1) < (b, 0)
+
+
+def str_mult_bool(b):
+    return "ab" * b
+
+
+def int_str_add(n):
+    return "n" + n
+
+
+def list_mul(n):
+    xs = [[0]] * 2
+    xs[0].append(n)
+    return len(xs[1])
+
+
+def del_key(k):
+    d = {"a": 1, "b": 2}
+    del d[k]
+    return len(d)
+
+
+def set_ops(x):
+    s = {1, 2}
+    s.add(x)
+    return len(s)
+
+
+def membership_none(x):
+    return x in (None, 0)
+
+
+def global_const_shadow(x):
+    math = 5
+    return math + x
+
+import datetime
+from typing import Any
+
+
+class Status(enum.Enum):
+    STARTED = "STARTED"
+    DONE = "DONE"
+
+
+class Signal(BaseException):
+    def __init__(self, message, code=0):
+        super().__init__(message)
+        self.message = message
+        self.code = code
+
+
+class TimedSignal(Signal):
+    def __init__(self, message, at):
+        super().__init__(message, code=1)
+        self.at = at
+
+
+class WithProp:
+    def __init__(self, v):
+        self._v = v
+
+    @property
+    def double(self):
+        return self._v * 2
+
+    @classmethod
+    def make(cls, v):
+        return cls(v + 1)
+
+    @staticmethod
+    def helper(v):
+        return v - 1
+
+
+class Child(WithProp):
+    @property
+    def double(self):
+        return self._v * 3
+
+
+def enum_value_roundtrip(s):
+    return Status(s).value
+
+
+def enum_name(s):
+    return Status(s).name
+
+
+def enum_eq_other_enum(s):
+    return Status.STARTED == Color.RED
+
+
+def enum_in_tuple(s):
+    return Status(s) in (Status.DONE,)
+
+
+def enum_is_not(s):
+    return Status(s) is not Status.DONE
+
+
+def enum_ne_str(s):
+    return Status.DONE != s
+
+
+def base_exception_fields(m):
+    try:
+        raise TimedSignal(m, 5)
+    except Signal as e:
+        return (e.message, e.code, e.at, str(e), type(e).__name__)
+
+
+def base_exc_not_caught_by_exception(m):
+    try:
+        try:
+            raise Signal(m)
+        except Exception:
+            return "exception"
+    except BaseException:
+        return "base"
+
+
+def raise_from(m):
+    try:
+        try:
+            raise ValueError(m)
+        except ValueError as e:
+            raise KeyError("k") from e
+    except KeyError as k:
+        return type(k.__cause__).__name__
+
+
+def isinstance_tuple(x):
+    return isinstance(x, (int, str))
+
+
+def isinstance_bool_int(x):
+    return (isinstance(x, bool), isinstance(x, int), isinstance(x, float))
+
+
+def type_is(x):
+    return type(x) is int
+
+
+def type_name(x):
+    return type(x).__name__
+
+
+def class_name_attr(x):
+    return WithProp(x).__class__.__name__
+
+
+def property_get(x):
+    return (WithProp(x).double, Child(x).double)
+
+
+def classmethod_make(x):
+    return (WithProp.make(x)._v, Child.make(x).double)
+
+
+def staticmethod_call(x):
+    return (WithProp.helper(x), WithProp(x).helper(x))
+
+
+def property_set(x):
+    w = WithProp(x)
+    w.double = 5
+    return w.double
+
+
+def nested_get(k):
+    d = {"a": {"b": 1}}
+    return d.get(k, {}).get("b")
+
+
+def dict_items_sum(n):
+    d = {"a": 1, "b": n}
+    t = 0
+    for k, v in d.items():
+        t += v
+    return t
+
+
+def dict_values_list(n):
+    return tuple({"a": 1, "b": n}.values())
+
+
+def dict_comp(n):
+    d = {k: v * n for k, v in (("a", 1), ("b", 2))}
+    return (d["a"], d["b"], len(d))
+
+
+def dict_len(n):
+    return len({"a": 1, "a": 2})
+
+
+def list_comp_cond(n):
+    return tuple(x * 2 for x in [1, 2, 3, 4] if x > n)
+
+
+def list_extend(n):
+    xs = [1]
+    xs.extend([n, n])
+    return len(xs)
+
+
+def list_copy_method(n):
+    a = [1, n]
+    b = a.copy()
+    b.append(3)
+    return (len(a), len(b))
+
+
+def zip_for(n):
+    t = 0
+    for a, b in zip([1, 2], [n, n]):
+        t += a * b
+    return t
+
+
+def recursion(n):
+    return 1 if n <= 1 else n * recursion(n - 1)
+
+
+def lambda_default(n):
+    f = lambda a, b=2: a + b
+    return f(n)
+
+
+def str_float(x):
+    return str(x)
+
+
+def fstr_float(x):
+    return f"{x}"
+
+
+def fstr_bool_none(x):
+    return f"{x}|{None}|{True}"
+
+
+def fstr_repr(x):
+    return f"{x!r}"
+
+
+def int_times_float(a, b):
+    return a * b
+
+
+def int_lt_float(a, b):
+    return a < b
+
+
+def str_in(a, b):
+    return a in b
+
+
+def str_eq_case(a, b):
+    return a == b
+
+
+def str_startswith(a, b):
+    return a.startswith(b)
+
+
+def optional_chain(x):
+    y = x if x else None
+    return y.upper() if y is not None else "none"
+
+
+def none_eq(x):
+    return (x == None, x is None)  # noqa: E711
+
+
+def bool_of_containers(n):
+    return (bool([]), bool([0]), bool({}), bool(""), bool("0"), bool(0.0), bool(n))
+
+
+def not_not(x):
+    return not not x
+
+
+def and_or_mix(a, b, c):
+    return a and b or c
+
+
+def compare_mixed_types(a, b):
+    return a == b
+
+
+def lt_str_int(a, b):
+    return a < b
+
+
+def nested_tuple_unpack(n):
+    (a, b), c = (1, n), 3
+    return a + b + c
+
+
+def for_tuple_unpack(n):
+    t = 0
+    for i, (a, b) in enumerate([(1, 2), (3, n)]):
+        t += i * a * b
+    return t
+
+
+def aug_attr(x):
+    w = WithProp(x)
+    w._v += 2
+    return w._v
+
+
+def aug_subscript(x):
+    d = {"a": 1}
+    d["a"] += x
+    return d["a"]
+
+
+def del_attr(x):
+    w = WithProp(x)
+    del w._v
+    return hasattr(w, "_v")
+
+
+def early_return_loop(n):
+    for i in range(10):
+        if i == n:
+            return i
+    return -1
+
+
+def nested_break(n):
+    c = 0
+    for i in range(3):
+        for j in range(3):
+            if j == n:
+                break
+            c += 1
+    return c
+
+
+def while_true_break(n):
+    i = 0
+    while True:
+        i += 1
+        if i >= n:
+            break
+    return i
+
+
+def try_in_loop_continue(n):
+    c = 0
+    for i in range(n):
+        try:
+            if i % 2 == 0:
+                raise ValueError("e")
+            c += 10
+        except ValueError:
+            c += 1
+            continue
+        c += 100
+    return c
+
+
+def return_in_with(flag):
+    c = Ctx(False)
+    def inner():
+        with c:
+            return "inside"
+    r = inner()
+    return (r, c.log)
+
+
+def exception_in_finally(x):
+    try:
+        try:
+            raise ValueError("a")
+        finally:
+            raise KeyError("b")
+    except KeyError:
+        return "key"
+    except ValueError:
+        return "value"
+
+
+def finally_after_return_value(x):
+    xs = [x]
+    def inner():
+        try:
+            return xs[0]
+        finally:
+            xs[0] = 99
+    r = inner()
+    return (r, xs[0])
+
+
+def assert_stmt(x):
+    assert x > 0, "positive"
+    return x
+
+
+def datetime_compare(a):
+    d1 = datetime.datetime(2024, 1, 1, tzinfo=datetime.UTC)
+    d2 = datetime.datetime(2024, 1, 2, tzinfo=datetime.UTC)
+    return d1 < d2
+
+
+def timedelta_seconds(a):
+    return datetime.timedelta(seconds=a).total_seconds()
+
+
+def conditional_import_name(x):
+    return Any is not None
+
+
+def int_bool_eq(x):
+    return (1 == True, 0 == False, 2 == True)  # noqa: E712
+
+
+def list_of_bool_in(x):
+    return True in [1]
+
+
+def str_join_ok(a, b):
+    return "-".join([a, b])
+
+
+def str_split(s):
+    return tuple(s.split(","))
+
+
+def str_strip(s):
+    return s.strip()
+
+
+def str_upper(s):
+    return s.upper()
+
+
+def str_replace(s):
+    return s.replace("a", "b")
+
+
+def str_find(s):
+    return s.find("b")
+
+
+def str_isdigit(s):
+    return s.isdigit()
+
+
+def bytes_len(s):
+    return len(s.encode("utf-8"))
+
+
+def abs_val(x):
+    return abs(x)
+
+
+def divmod_val(a, b):
+    return divmod(a, b)
+
+
+def int_bitops(a, b):
+    return (a & b, a | b, a ^ b, a << 1)
+
+
+def float_floor_div(a, b):
+    return a // b
+
+
+def large_int(a):
+    return a * a * a * a
 '''
 
 CASES = [
@@ -347,6 +1382,178 @@ CASES = [
     ("nested_def_sees_later_name", [(4,)]),
     ("augmented_alias", [(2,)]),
     ("tuple_augmented", [(2,)]),
+    ('try_finally_return', [(1,), (9,)]),
+    ('try_else', [(True,), (False,)]),
+    ('except_order', [(True,), (False,)]),
+    ('except_tuple', [(0,), (1,), (2,)]),
+    ('except_lookup_parent', [(0,), (1,)]),
+    ('reraise_bare', [(True,), (False,)]),
+    ('exception_in_except', [(1,)]),
+    ('exc_var_scope', [(1,)]),
+    ('finally_runs_on_raise', [(1,)]),
+    ('str_keyerror', [('a',), (5,)]),
+    ('str_valueerror', [('a',)]),
+    ('exc_args_two', [('a', 2)]),
+    ('dict_missing', [('a',), ('z',)]),
+    ('dict_get_none', [('a',), ('z',)]),
+    ('dict_in', [('a',), ('z',)]),
+    ('dict_pop_default', [('a',), ('z',)]),
+    ('dict_order', [('c',), ('b',)]),
+    ('dict_update_overwrite', [('a',), ('b',)]),
+    ('dict_eq_order', [(0,)]),
+    ('list_index_error', [(0,), (3,), (-1,), (-4,)]),
+    ('list_slice', [(1,), (9,), (-1,)]),
+    ('list_in', [(2,), (9,)]),
+    ('list_concat_len', [(1,)]),
+    ('list_pop_empty', [(1,)]),
+    ('list_eq', [(2,), (3,)]),
+    ('list_alias_append', [(1,)]),
+    ('list_copy_append', [(1,)]),
+    ('true_div', [(7, 2), (6, 3), (1, 0)]),
+    ('int_trunc', [(-1.5,), (1.9,), (3,)]),
+    ('neg_mod', [(-7, 3), (7, -3)]),
+    ('power', [(2, 10), (2, -1)]),
+    ('min_max', [(1, 2), (2.5, 1)]),
+    ('round_builtin', [(0.5,), (1.5,), (2.5,)]),
+    ('math_ceil', [(1.2,), (-1.2,), (3,)]),
+    ('int_float_eq', [(1, 1.0), (1, 1.5)]),
+    ('bool_sum', [(True, True), (True, 2)]),
+    ('zero_div', [(0,), (2,)]),
+    ('str_of', [(None,), (True,), (3,), (1.5,), ('s',)]),
+    ('str_len', [('abc',), ('',)]),
+    ('str_concat_none', [('b',), (None,)]),
+    ('str_compare', [('a', 'b'), ('b', 'a'), ('a', 'a')]),
+    ('str_index', [('abc', 0), ('abc', 5), ('abc', -1)]),
+    ('str_slice', [('abcdef',), ('a',)]),
+    ('str_format_percent', [(3,)]),
+    ('str_in_tuple', [('a',), ('z',)]),
+    ('short_circuit', [(1,), (0,)]),
+    ('ternary', [(0,), (1,), ('',)]),
+    ('chained_once', [(5,), (50,)]),
+    ('any_all_empty', [(0,)]),
+    ('walrus', [(1,), (5,)]),
+    ('unpack_mismatch', [(2,), (3,), (1,)]),
+    ('star_unpack', [(0,)]),
+    ('swap', [(1, 2)]),
+    ('call_kwonly_wrong', [(1,)]),
+    ('call_varargs', [(1,)]),
+    ('method_resolution', [(1,)]),
+    ('base_resolution', [(1,)]),
+    ('isinstance_inherit', [(1,)]),
+    ('instance_shadows_class', [(1,)]),
+    ('frozen_set', [(1,)]),
+    ('dataclass_eq', [(1,)]),
+    ('dataclass_default_factory', [(1,)]),
+    ('dataclass_replace', [(7,)]),
+    ('with_swallow', [(True,), (False,)]),
+    ('none_lt', [(1,)]),
+    ('or_default_zero', [(0,), (3,), (None,)]),
+    ('is_not_none_zero', [(0,), (None,)]),
+    ('for_else', [(1,), (3,)]),
+    ('while_else', [(2,)]),
+    ('break_in_try_finally', [(3,)]),
+    ('continue_loop', [(5,)]),
+    ('range_step', [(5,)]),
+    ('enumerate_start', [(3,)]),
+    ('zip_unequal', [(0,)]),
+    ('reversed_list', [(7,)]),
+    ('sum_list', [(4,)]),
+    ('max_empty', [(0,)]),
+    ('max_default', [(4,)]),
+    ('sorted_key', [(2,)]),
+    ('sort_returns_none', [(0,)]),
+    ('int_parse', [('12',), ('x',), (' 5 ',)]),
+    ('nan_ne', [(0,)]),
+    ('attr_missing', [(1,)]),
+    ('getattr_default', [(1,)]),
+    ('hasattr_check', [(1,)]),
+    ('none_attr', [(1,)]),
+    ('call_none', [(1,)]),
+    ('nested_func_default', [(1,)]),
+    ('tuple_compare', [(1, 1), (1, 2)]),
+    ('str_mult_bool', [(True,), (False,)]),
+    ('int_str_add', [(1,)]),
+    ('list_mul', [(1,)]),
+    ('del_key', [('a',), ('z',)]),
+    ('set_ops', [(1,), (3,)]),
+    ('membership_none', [(None,), (0,), (1,)]),
+    ('global_const_shadow', [(1,)]),
+    ('enum_value_roundtrip', [('DONE',), ('x',)]),
+    ('enum_name', [('DONE',)]),
+    ('enum_eq_other_enum', [(0,)]),
+    ('enum_in_tuple', [('DONE',), ('STARTED',)]),
+    ('enum_is_not', [('DONE',), ('STARTED',)]),
+    ('enum_ne_str', [('DONE',)]),
+    ('base_exception_fields', [('m',)]),
+    ('base_exc_not_caught_by_exception', [('m',)]),
+    ('raise_from', [('m',)]),
+    ('isinstance_tuple', [(1,), ('s',), (1.5,), (None,)]),
+    ('isinstance_bool_int', [(True,), (1,), (1.0,)]),
+    ('type_is', [(1,), (True,), ('s',)]),
+    ('type_name', [(1,), (True,), ('s',), (None,), (1.5,)]),
+    ('class_name_attr', [(1,)]),
+    ('property_get', [(2,)]),
+    ('classmethod_make', [(2,)]),
+    ('staticmethod_call', [(2,)]),
+    ('property_set', [(2,)]),
+    ('nested_get', [('a',), ('z',)]),
+    ('dict_items_sum', [(5,)]),
+    ('dict_values_list', [(5,)]),
+    ('dict_comp', [(3,)]),
+    ('dict_len', [(0,)]),
+    ('list_comp_cond', [(2,)]),
+    ('list_extend', [(2,)]),
+    ('list_copy_method', [(2,)]),
+    ('zip_for', [(3,)]),
+    ('recursion', [(4,)]),
+    ('lambda_default', [(3,)]),
+    ('str_float', [(1.0,), (0.1,), (1e+22,)]),
+    ('fstr_float', [(1.0,), (2.5,)]),
+    ('fstr_bool_none', [(1,)]),
+    ('fstr_repr', [('a',), (1,)]),
+    ('int_times_float', [(2, 0.5), (3, 2)]),
+    ('int_lt_float', [(1, 1.5), (2, 1.5)]),
+    ('str_in', [('a', 'abc'), ('', 'abc'), ('z', 'abc')]),
+    ('str_eq_case', [('a', 'A'), ('a', 'a')]),
+    ('str_startswith', [('abc', 'ab'), ('abc', ''), ('abc', 'b')]),
+    ('optional_chain', [('a',), ('',)]),
+    ('none_eq', [(None,), (0,)]),
+    ('bool_of_containers', [(2,), (0,)]),
+    ('not_not', [(0,), ('a',), (None,)]),
+    ('and_or_mix', [(0, 1, 2), (1, 0, 2), (1, 3, 2)]),
+    ('compare_mixed_types', [(1, '1'), (None, 0), ('a', 'a')]),
+    ('lt_str_int', [('a', 1)]),
+    ('nested_tuple_unpack', [(2,)]),
+    ('for_tuple_unpack', [(4,)]),
+    ('aug_attr', [(1,)]),
+    ('aug_subscript', [(2,)]),
+    ('del_attr', [(1,)]),
+    ('early_return_loop', [(3,), (20,)]),
+    ('nested_break', [(1,)]),
+    ('while_true_break', [(3,)]),
+    ('try_in_loop_continue', [(4,)]),
+    ('return_in_with', [(True,)]),
+    ('exception_in_finally', [(1,)]),
+    ('finally_after_return_value', [(1,)]),
+    ('assert_stmt', [(1,), (0,)]),
+    ('datetime_compare', [(0,)]),
+    ('timedelta_seconds', [(5,)]),
+    ('conditional_import_name', [(0,)]),
+    ('int_bool_eq', [(0,)]),
+    ('list_of_bool_in', [(0,)]),
+    ('str_join_ok', [('a', 'b')]),
+    ('str_split', [('a,b',)]),
+    ('str_strip', [(' a ',)]),
+    ('str_upper', [('ab',)]),
+    ('str_replace', [('aa',)]),
+    ('str_find', [('abc',)]),
+    ('str_isdigit', [('12',), ('a',)]),
+    ('bytes_len', [('é',), ('a',)]),
+    ('abs_val', [(-2,), (2.5,)]),
+    ('divmod_val', [(7, 2), (-7, 2)]),
+    ('int_bitops', [(6, 3)]),
+    ('float_floor_div', [(7.5, 2), (-7.5, 2)]),
+    ('large_int', [(10000000000,)]),
 ]
 
 
@@ -397,6 +1604,97 @@ def check(st, c):
     return s.check() == z3.sat
 
 
+def sym_types(arglists):
+    """a type per position that covers every sample (None if the samples mix types the engine has no single symbolic value for)"""
+    out = []
+    for pos in zip(*arglists):
+        ts = {type(x).__name__ for x in pos}
+        if ts == {"bool"}:
+            out.append("bool")
+        elif ts == {"int"}:
+            out.append("int")
+        elif ts == {"str"}:
+            out.append("str")
+        elif ts <= {"int", "float"} and "float" in ts:
+            out.append("float")
+        elif ts == {"str", "NoneType"}:
+            out.append("str | None")
+        elif ts == {"int", "NoneType"}:
+            out.append("int | None")
+        else:
+            return None
+    return out
+
+
+def bind(v, sample):
+    """constraint: the symbolic argument v IS the concrete sample"""
+    if isinstance(v, Opt):
+        if sample is None:
+            return v.none
+        return z3.And(z3.Not(v.none), bind(v.val, sample))
+    if v.kind == "bool":
+        return v.t == z3.BoolVal(sample)
+    if v.kind == "int":
+        return v.t == z3.IntVal(sample)
+    if v.kind == "real":
+        return v.t == z3.RealVal(repr(float(sample)))
+    return v.t == z3.StringVal(sample)
+
+
+def symbolic_mode(program, ns_src):
+    """every snippet whose samples have one symbolic type per argument is ALSO executed once on symbolic arguments; for each sample the
+    outcomes whose path condition admits the sample must include CPython's outcome on it"""
+    total = sound = refused = 0
+    failures = []
+    for name, arglists in CASES:
+        types = sym_types(arglists) if len({len(a) for a in arglists}) == 1 else None
+        if not types:
+            continue
+        eng = Engine(program=program)
+        st = St()
+        try:
+            syms = [eng.sym_of_type(t, f"arg{i}", st) for i, t in enumerate(types)]
+            res = eng.run(program.func("snip." + name), list(syms), st=st)
+        except Unsupported as e:
+            refused += len(arglists)
+            total += len(arglists)
+            sound += len(arglists)
+            continue
+        except Exception as e:  # noqa: BLE001
+            total += len(arglists)
+            if "RecursionError" in repr(e):       # unbounded recursion on a symbolic argument: the engine gives up (a check would end as a checker fault, exit 3 - never a proof)
+                refused += len(arglists)
+                sound += len(arglists)
+                continue
+            failures.append(f"{name} (symbolic {types}): engine crashed: {e!r}")
+            continue
+        for args in arglists:
+            total += 1
+            ns_fresh = {}
+            exec(compile(ns_src, "snip.py", "exec"), ns_fresh)
+            want = cpython_outcome(ns_fresh, name, args)
+            binding = [bind(v, a) for v, a in zip(syms, args)]
+            hit, outs = False, []
+            for k, v, s in res:
+                s2 = s.fork()
+                for b in binding:
+                    s2.assume(b)
+                if not check(s2, z3.BoolVal(True)):
+                    continue
+                if k == "raise":
+                    outs.append(("raise", exc_name(s2, v)))
+                    hit = hit or (want[0] == "raise" and exc_name(s2, v) == want[1])
+                else:
+                    m = may_equal(s2, v, want[1]) if want[0] == "val" else False
+                    outs.append(("val", v if not isinstance(v, (Sym, Opt, Ref)) else "<symbolic>"))
+                    hit = hit or bool(m) or m is None
+            if hit:
+                sound += 1
+            else:
+                failures.append(f"{name}{args} (symbolic {types}): CPython {want}, engine paths admitting this input give only {outs}")
+    return total, sound, refused, failures
+
+
 def main():
     tmp = tempfile.mkdtemp(prefix="pyvc_selftest_")
     try:
@@ -442,9 +1740,12 @@ def main():
                         exact += 1
                 else:
                     failures.append(f"{name}{args}: CPython {want}, engine considers only {outs}")
+        t2, s2_, r2, f2 = symbolic_mode(program, SNIPPETS)
+        failures.extend(f2)
         for f_ in failures:
             print("UNSOUND", f_)
-        print(f"engine conformance self-test: {total} cases, sound on {sound} ({refused} refused as unsupported, {exact} with exactly CPython's outcome), {len(failures)} failures")
+        print(f"engine conformance self-test: {total} concrete cases, sound on {sound} ({refused} refused as unsupported, {exact} with exactly CPython's outcome); "
+              f"{t2} symbolic-argument cases, sound on {s2_} ({r2} refused); {len(failures)} failures")
         return 1 if failures else 0
     finally:
         shutil.rmtree(tmp, ignore_errors=True)
